@@ -116,6 +116,7 @@ func freeze(p *Program, path string) {
 	}
 	sc := bufio.NewScanner(f)
 	ln := 0
+	lastWasRetu := false
 	fail := func(format string, a ...interface{}) {
 		checkerFail("%s:%d: %s", path, ln, fmt.Sprintf(format, a...))
 	}
@@ -126,6 +127,9 @@ func freeze(p *Program, path string) {
 			continue
 		}
 		fields := strings.Fields(line)
+		if fields[0] != "or" {
+			lastWasRetu = fields[0] == "retu"
+		}
 		switch fields[0] {
 		case "prop":
 			tab.Property = fields[1]
@@ -327,6 +331,18 @@ func freeze(p *Program, path string) {
 			}
 			if !found {
 				fail("no return on line %d", want)
+			}
+		case "or": // or <canonical expression>: another accepted form of the value named by the preceding ret / retu line
+			alt := strings.TrimSpace(strings.TrimPrefix(strings.TrimSpace(line), "or"))
+			switch {
+			case lastWasRetu && len(cur.RetAts) > 0:
+				prev := cur.RetAts[len(cur.RetAts)-1]
+				cur.RetAts = append(cur.RetAts, RetAt{Label: prev.Label, Index: prev.Index, Want: alt})
+			case len(cur.Returns) > 0:
+				r := &cur.Returns[len(cur.Returns)-1]
+				r.Want = append(r.Want, alt)
+			default:
+				fail("`or` without a preceding ret / retu")
 			}
 		default:
 			fail("unknown directive %q", fields[0])
